@@ -835,3 +835,219 @@ Proof.
     + destruct Ro as (O1 & _). destruct (werr_cases _ _ O1 Hnfo) as (Hco & ->).
       destruct Hco as [Hco|[Hco|[Hco|Hco]]]; rewrite Hco; reflexivity.
 Qed.
+
+(* ---- the step theorem at the level of worlds, any user ----------------------------------------------------------- *)
+Definition open_covered (s : fsys) (sv : sview) (p : str) (flag : N) : Prop :=
+  (N.land flag 3 < 3)%N /\
+  ((has flag O_CREATE = false /\ exists cs, p = abs_path cs /\ path_ok s sv SlEval cs
+      /\ (has flag O_TRUNC = true -> file_privs_kept s sv cs))
+   \/ (has flag O_CREATE = true /\ has flag O_EXCL = false /\ exists w cl, p = abs_path (w ++ [cl])
+         /\ path_ok s sv SlEval (w ++ [cl]) /\ (has flag O_TRUNC = true -> file_privs_kept s sv (w ++ [cl]))
+         /\ no_setgid_parent_follow s sv (w ++ [cl]))
+   \/ (has flag O_CREATE = true /\ has flag O_EXCL = true /\ exists w cl, p = abs_path (w ++ [cl])
+         /\ path_ok s sv SlLstat (w ++ [cl]) /\ excl_existing_accessible s sv (w ++ [cl]) flag
+         /\ no_setgid_parent s sv (w ++ [cl]))).
+
+Definition dcovered (phl : bool) (vi : nat) (sw : sworld) (c : call) : Prop :=
+  let s := sw_fs sw in
+  let sv := sw_sv sw in
+  dac_hyps s sv /\
+  match c with
+  | CStat vi' p => vi' = vi /\ exists cs, p = abs_path cs /\ path_ok s sv SlStat cs
+  | CLstat vi' p => vi' = vi /\ exists cs, p = abs_path cs /\ path_ok s sv SlLstat cs
+  | CReadlink vi' p => vi' = vi /\ exists cs, p = abs_path cs /\ path_ok s sv SlLstat cs
+  | CChtimes vi' p => vi' = vi /\ exists cs, p = abs_path cs /\ path_ok s sv SlEval cs
+  | CChmod vi' p mode => vi' = vi /\ exists cs, p = abs_path cs /\ path_ok s sv SlEval cs /\ chmod_keeps_setgid s sv cs mode
+  | CTruncate vi' p _ => vi' = vi /\ exists cs, p = abs_path cs /\ path_ok s sv SlEval cs /\ file_privs_kept s sv cs
+  | CMkdir vi' p _ =>
+      vi' = vi /\ exists w cl, p = abs_path (w ++ [cl]) /\ path_ok s sv SlLstat (w ++ [cl])
+                               /\ no_setgid_parent s sv (w ++ [cl])
+  | CSymlink vi' t p =>
+      vi' = vi /\ t = clean Linux t /\
+      exists w cl, p = abs_path (w ++ [cl]) /\ path_ok s sv SlLstat (w ++ [cl]) /\ no_setgid_parent s sv (w ++ [cl])
+  | CRemove vi' p =>
+      vi' = vi /\ sym_single (f_heap s) /\ exists w cl, p = abs_path (w ++ [cl]) /\ path_ok s sv SlLstat (w ++ [cl])
+                                                       /\ no_sticky_refusal s sv (w ++ [cl])
+  | CLink vi' o p =>
+      vi' = vi /\ exists co w cl, o = abs_path co /\ p = abs_path (w ++ [cl]) /\ path_ok s sv SlLstat co
+                                  /\ path_ok s sv SlLstat (w ++ [cl]) /\ not_symlink s sv co /\ link_permitted phl s sv co
+  | CRename vi' o p =>
+      vi' = vi /\ exists wo clo w cl, o = abs_path (wo ++ [clo]) /\ p = abs_path (w ++ [cl])
+        /\ path_ok s sv SlLstat (wo ++ [clo]) /\ path_ok s sv SlLstat (w ++ [cl])
+        /\ source_not_dir s sv (wo ++ [clo]) /\ dest_absent s sv (w ++ [cl])
+        /\ rename_one_error s sv (wo ++ [clo]) (w ++ [cl]) /\ no_sticky_refusal s sv (wo ++ [clo])
+  | COpenFile vi' p flag _ => vi' = vi /\ open_covered s sv p flag
+  | _ => False
+  end.
+
+Lemma open_file_fail_kind (s : fsys) (v : view) (vi : nat) (name : str) (flag perm : N) (r : res) :
+  snd (open_file s v vi name flag perm) = inl r -> forall h, r <> RHandle h.
+Proof.
+  unfold open_file. destruct name as [|x name]; [intros [= <-]; discriminate|]. cbv zeta.
+  set (om := to_open_mode flag). set (rr := search_node s v (x :: name) _).
+  assert (OE : forall c X, snd (match get (f_heap s) c with
+      | Some (NFile d k i m) =>
+          if negb (check_permission m (if has om OpenTruncate then N.lor om OpenWrite else om) (v_user v))
+          then (s, inl (RFail EPermDenied))
+          else if has om OpenCreateExcl then (s, inl (RFail EFileExists))
+          else
+            let d1 := if has om OpenTruncate then [] else d in
+            let at_ := if has om OpenAppend then Z.of_nat (length d1) else 0%Z in
+            (with_heap s (upd (f_heap s) c (NFile d1 k i m)), inr (new_handle c vi (x :: name) at_ om))
+      | Some (NDir _ m) =>
+          if has om OpenCreateExcl then (s, inl (RFail EFileExists))
+          else if has om OpenWrite || has om OpenCreate || has om OpenTruncate then (s, inl (RFail EIsADirectory))
+          else if negb (check_permission m om (v_user v)) then (s, inl (RFail EPermDenied))
+          else (s, inr (new_handle c vi (x :: name) 0 om))
+      | _ => (s, inr (new_handle c vi (x :: name) 0 om))
+      end) = inl X -> forall h, X <> RHandle h).
+  { intros c X. destruct (get (f_heap s) c) as [[ch m|d k i m|t m]|]; try discriminate.
+    - destruct (has om OpenCreateExcl); [intros [= <-]; discriminate|]. destruct (_ || _); [intros [= <-]; discriminate|].
+      destruct (negb _); [intros [= <-]; discriminate|discriminate].
+    - destruct (negb _); [intros [= <-]; discriminate|]. destruct (has om OpenCreateExcl); [intros [= <-]; discriminate|discriminate]. }
+  destruct (negb (is_file_exists (sr_err rr)) && negb (is_not_exist (sr_err rr)) || negb (pi_is_last (sr_pi rr))); [intros [= <-]; discriminate|].
+  match goal with |- context [if ?b then (s, inl (RFail (sr_err rr))) else _] => destruct b; [intros [= <-]; discriminate|] end.
+  destruct (is_not_exist (sr_err rr)).
+  - destruct (negb (has om OpenCreate)); [intros [= <-]; discriminate|].
+    destruct (sr_parent rr) as [parent|]; [|intros [= <-]; discriminate].
+    destruct (negb (perm_on _ _ _ _)); [intros [= <-]; discriminate|].
+    destruct (alookup _ _ _) as [c|]; [apply OE|]. destruct (create_file _ _ _ _ _). discriminate.
+  - destruct (sr_child rr) as [c|]; [apply OE|intros [= <-]; discriminate].
+Qed.
+
+Section DStepEqns.
+  Variables (phl : bool) (w : world) (vi : nat) (sw : sworld).
+  Hypothesis Ha : absw w vi sw.
+
+  Lemma dworld_of_lift (c : call) (f : fsys * res) (g : fsys * pres) :
+    impl_step_proj w c = (with_fs w (fst f), proj_res Linux (snd f)) ->
+    spec_step phl sw c = ({| sw_fs := fst g; sw_sv := sw_sv sw |}, snd g) ->
+    (fst f, proj_res Linux (snd f)) = g ->
+    stat_sim (snd (impl_step_proj w c)) (snd (spec_step phl sw c))
+    /\ absw (fst (impl_step_proj w c)) vi (fst (spec_step phl sw c)).
+  Proof.
+    intros Ei Es E. rewrite Ei, Es, <- E. cbn [fst snd]. split; [apply stat_sim_refl|]. exact (absw_with_fs w vi sw _ Ha).
+  Qed.
+
+  Lemma dworld_of_ro (c : call) (r : res) (g : pres) :
+    impl_step_proj w c = (w, proj_res Linux r) -> spec_step phl sw c = (sw, g) -> stat_sim (proj_res Linux r) g ->
+    stat_sim (snd (impl_step_proj w c)) (snd (spec_step phl sw c))
+    /\ absw (fst (impl_step_proj w c)) vi (fst (spec_step phl sw c)).
+  Proof. intros Ei Es E. rewrite Ei, Es. cbn [fst snd]. split; [exact E|exact Ha]. Qed.
+End DStepEqns.
+
+Theorem dstep_world (phl : bool) (w : world) (vi : nat) (sw : sworld) (c : call) :
+  absw w vi sw -> dcovered phl vi sw c ->
+  stat_sim (snd (impl_step_proj w c)) (snd (spec_step phl sw c))
+  /\ absw (fst (impl_step_proj w c)) vi (fst (spec_step phl sw c)).
+Proof.
+  intros Ha (H & Hc). pose proof Ha as (Hfs & Hv).
+  destruct c; try (destruct Hc; fail); cbn [dcovered] in Hc.
+  - (* Mkdir *)
+    destruct Hc as (-> & ww & cl & Ep & Hp & Hsg).
+    apply (dworld_of_lift phl w vi sw Ha _ (mkdir (w_fs w) (sv_view (sw_sv sw)) p perm) (k_mkdir (sw_fs sw) (sw_sv sw) p perm)).
+    + apply (impl_lift w _ _ (wstep_mkdir w vi _ Hv p perm)); [left; discriminate|exact I].
+    + reflexivity.
+    + rewrite <- Hfs, Ep. exact (dstep_mkdir (sw_fs sw) (sw_sv sw) ww cl perm H Hp Hsg).
+  - (* OpenFile *)
+    destruct Hc as (-> & Hacc & Hoc).
+    assert (OS : open_sim (open_file (w_fs w) (sv_view (sw_sv sw)) vi p flag perm) (k_open (sw_fs sw) (sw_sv sw) p flag perm)).
+    { rewrite <- Hfs. destruct Hoc as [(Hcr & cs & -> & Hp & Hpk)|[(Hcr & Hex & ww & cl & -> & Hp & Hpk & Hsg)|(Hcr & Hex & ww & cl & -> & Hp & Hea & Hsg)]].
+      - apply dstep_open_nocreat; assumption.
+      - apply dstep_open_creat; assumption.
+      - apply dstep_open_excl; assumption. }
+    pose proof (open_file_fail_kind (w_fs w) (sv_view (sw_sv sw)) vi p flag perm) as HK.
+    unfold impl_step_proj. cbn [wstep spec_step]. unfold on_view. rewrite Hv.
+    destruct (open_file (w_fs w) (sv_view (sw_sv sw)) vi p flag perm) as [s1 [r|f]];
+      destruct (k_open (sw_fs sw) (sw_sv sw) p flag perm) as [s2 [e|c]]; destruct OS as (O1 & O2); cbn [fst snd] in *; try contradiction; subst s2.
+    + split; [|split; [reflexivity|exact Hv]]. left. specialize (HK r eq_refl). destruct r; try exact O2. exfalso. exact (HK _ eq_refl).
+    + split; [left; reflexivity|split; [reflexivity|exact Hv]].
+  - (* Remove *)
+    destruct Hc as (-> & Hss & ww & cl & Ep & Hp & Hst).
+    apply (dworld_of_lift phl w vi sw Ha _ (remove (w_fs w) (sv_view (sw_sv sw)) p) (go_remove (sw_fs sw) (sw_sv sw) p)).
+    + apply (impl_lift w _ _ (wstep_remove w vi _ Hv p)); [left; discriminate|exact I].
+    + reflexivity.
+    + rewrite <- Hfs, Ep. exact (dstep_remove (sw_fs sw) (sw_sv sw) ww cl H Hp Hss Hst).
+  - (* Rename *)
+    destruct Hc as (-> & wo & clo & ww & cl & Eo & Ep & Hpo & Hp & Hnd & Hab & Hone & Hst).
+    apply (dworld_of_lift phl w vi sw Ha _ (rename (w_fs w) (sv_view (sw_sv sw)) o n) (go_rename (sw_fs sw) (sw_sv sw) o n)).
+    + assert (E : wstep w (CRename vi o n) = lift w (rename (w_fs w) (sv_view (sw_sv sw)) o n))
+        by (unfold wstep, on_view; rewrite Hv; reflexivity).
+      apply (impl_lift w _ _ E); [left; discriminate|exact I].
+    + reflexivity.
+    + rewrite <- Hfs, Eo, Ep. exact (dstep_rename_file_new (sw_fs sw) (sw_sv sw) wo clo ww cl H Hpo Hp Hnd Hab Hone Hst).
+  - (* Link *)
+    destruct Hc as (-> & co & ww & cl & Eo & Ep & Hpo & Hp & Hns & Hph).
+    apply (dworld_of_lift phl w vi sw Ha _ (link (w_fs w) (sv_view (sw_sv sw)) o n) (k_link phl (sw_fs sw) (sw_sv sw) o n)).
+    + apply (impl_lift w _ _ (wstep_link w vi _ Hv o n)); [left; discriminate|exact I].
+    + reflexivity.
+    + rewrite <- Hfs, Eo, Ep. exact (dstep_link phl (sw_fs sw) (sw_sv sw) co ww cl H Hpo Hp Hns Hph).
+  - (* Symlink *)
+    destruct Hc as (-> & Ht & ww & cl & Ep & Hp & Hsg).
+    apply (dworld_of_lift phl w vi sw Ha _ (symlink (w_fs w) (sv_view (sw_sv sw)) o n) (k_symlink (sw_fs sw) (sw_sv sw) o n)).
+    + apply (impl_lift w _ _ (wstep_symlink w vi _ Hv o n)); [left; discriminate|exact I].
+    + reflexivity.
+    + rewrite <- Hfs, Ep. rewrite Ht at 3. exact (dstep_symlink (sw_fs sw) (sw_sv sw) ww cl o H Hp Hsg).
+  - (* Readlink *)
+    destruct Hc as (-> & cs & Ep & Hp).
+    apply (dworld_of_ro phl w vi sw Ha _ (readlink (w_fs w) (sv_view (sw_sv sw)) p) (k_readlink (sw_fs sw) (sw_sv sw) p)).
+    + apply (impl_ro w _ _ (wstep_readlink w vi _ Hv p)). exact I.
+    + reflexivity.
+    + rewrite <- Hfs, Ep, (dstep_readlink (sw_fs sw) (sw_sv sw) cs H Hp). apply stat_sim_refl.
+  - (* Truncate *)
+    destruct Hc as (-> & cs & Ep & Hp & Hpk).
+    apply (dworld_of_lift phl w vi sw Ha _ (truncate (w_fs w) (sv_view (sw_sv sw)) p size) (k_truncate (sw_fs sw) (sw_sv sw) p size)).
+    + apply (impl_lift w _ _ (wstep_truncate w vi _ Hv p size)); [left; discriminate|exact I].
+    + reflexivity.
+    + rewrite <- Hfs, Ep. exact (dstep_truncate (sw_fs sw) (sw_sv sw) cs size H Hp Hpk).
+  - (* Chmod *)
+    destruct Hc as (-> & cs & Ep & Hp & Hsg).
+    apply (dworld_of_lift phl w vi sw Ha _ (chmod (w_fs w) (sv_view (sw_sv sw)) p mode) (k_chmod (sw_fs sw) (sw_sv sw) p mode)).
+    + apply (impl_lift w _ _ (wstep_chmod w vi _ Hv p mode)); [left; discriminate|exact I].
+    + reflexivity.
+    + rewrite <- Hfs, Ep. exact (dstep_chmod (sw_fs sw) (sw_sv sw) cs mode H Hp Hsg).
+  - (* Chtimes *)
+    destruct Hc as (-> & cs & Ep & Hp).
+    apply (dworld_of_ro phl w vi sw Ha _ (chtimes (w_fs w) (sv_view (sw_sv sw)) p) (k_utimes (sw_fs sw) (sw_sv sw) p)).
+    + apply (impl_ro w _ _ (wstep_chtimes w vi _ Hv p)). exact I.
+    + reflexivity.
+    + rewrite <- Hfs, Ep, (dstep_chtimes (sw_fs sw) (sw_sv sw) cs H Hp). apply stat_sim_refl.
+  - (* Stat *)
+    destruct Hc as (-> & cs & Ep & Hp).
+    apply (dworld_of_ro phl w vi sw Ha _ (stat_gen SlStat (w_fs w) (sv_view (sw_sv sw)) p) (k_stat true (sw_fs sw) (sw_sv sw) p)).
+    + apply (impl_ro w _ _ (wstep_stat w vi _ Hv p)). exact I.
+    + reflexivity.
+    + rewrite <- Hfs, Ep. exact (dstep_stat (sw_fs sw) (sw_sv sw) SlStat cs H Hp).
+  - (* Lstat *)
+    destruct Hc as (-> & cs & Ep & Hp).
+    apply (dworld_of_ro phl w vi sw Ha _ (stat_gen SlLstat (w_fs w) (sv_view (sw_sv sw)) p) (k_stat false (sw_fs sw) (sw_sv sw) p)).
+    + apply (impl_ro w _ _ (wstep_lstat w vi _ Hv p)). exact I.
+    + reflexivity.
+    + rewrite <- Hfs, Ep. exact (dstep_stat (sw_fs sw) (sw_sv sw) SlLstat cs H Hp).
+Qed.
+
+(* ---- histories: C03_step by induction over call lists ---------------------------------------------------------- *)
+Fixpoint spec_run_phl (phl : bool) (sw : sworld) (cs : list call) : sworld * list pres :=
+  match cs with
+  | [] => (sw, [])
+  | c :: cs' => let sw1 := fst (spec_step phl sw c) in
+                (fst (spec_run_phl phl sw1 cs'), snd (spec_step phl sw c) :: snd (spec_run_phl phl sw1 cs'))
+  end.
+
+Fixpoint dcovered_run (phl : bool) (vi : nat) (sw : sworld) (cs : list call) : Prop :=
+  match cs with
+  | [] => True
+  | c :: cs' => dcovered phl vi sw c /\ dcovered_run phl vi (fst (spec_step phl sw c)) cs'
+  end.
+
+Theorem dhistory_world (phl : bool) (vi : nat) : forall (cs : list call) (w : world) (sw : sworld),
+  absw w vi sw -> dcovered_run phl vi sw cs ->
+  Forall2 stat_sim (snd (impl_run w cs)) (snd (spec_run_phl phl sw cs))
+  /\ absw (fst (impl_run w cs)) vi (fst (spec_run_phl phl sw cs)).
+Proof.
+  induction cs as [|c cs IH]; intros w sw Ha Hc.
+  - split; [constructor|exact Ha].
+  - destruct Hc as (Hc1 & Hc2). destruct (dstep_world phl w vi sw c Ha Hc1) as (S1 & S2).
+    destruct (IH _ _ S2 Hc2) as (I1 & I2). cbn [impl_run spec_run_phl fst snd].
+    split; [constructor; assumption|exact I2].
+Qed.
